@@ -120,3 +120,74 @@ package kademlia
 //@   property C24
 //@   requires k != nil && kadOK(k)
 //@   ensures picked-exactly-with-room-or-exemption: result <==> (isBootMode || isProtected || !isOversaturated)
+
+//@ # ---- C23: closest-peer selection --------------------------------------------------------------
+//@ # XOR distance to a target as a number (Closer is its strict order: proved in pkg/boson, C20)
+//@ spec func xdist(target boson.Address, x boson.Address) int
+//@ spec func isZeroA(x boson.Address) bool
+//@ extern func (github.com/gauss-project/aurorafs/pkg/boson.Address).Closer
+//@   ensures result1 == nil && (result0 <==> xdist(x, a) < xdist(x, y))
+//@   assigns nothing
+//@ extern func (github.com/gauss-project/aurorafs/pkg/boson.Address).IsZero
+//@   ensures result == isZeroA(a)
+//@   assigns nothing
+//@ extern func (github.com/gauss-project/aurorafs/pkg/boson.Address).Equal
+//@   ensures result == (a == b)
+//@   assigns nothing
+//@ extern func (*github.com/gauss-project/aurorafs/pkg/topology/pslice.PSlice).Length
+//@   requires s != nil
+//@   ensures result >= 0 && (result == 0 ==> forall x boson.Address :: !psMem(deref(s), x))
+//@   assigns nothing
+
+//@ # eligible = connected and passing the reachability filter when one is asked for
+//@ spec func filteredOut(f int, x boson.Address) bool
+//@ spec func elig(k *Kad, x boson.Address, reachable bool) bool = conn(k, x) && (!reachable || !filteredOut(ref(k.peerFilter), x))
+//@ # the iteration context, named for the visitor (logical constants bound by ClosestPeer's precondition)
+//@ ghost curKad *Kad
+//@ ghost curReach bool
+
+//@ # EachPeerRev visits exactly the eligible peers, each at least once, unless the visitor stops it
+//@ func (*Kad).EachPeerRev
+//@   trusted
+//@   iterates f with elig(k, $peer, filter.Reachable) && !isZeroA($peer) covering elig(k, $peer, filter.Reachable) unless ($result0 || $result1 || $result2 != nil)
+//@   ensures result == nil
+//@   assigns nothing
+
+//@ spec func skippedIn(skip []boson.Address, x boson.Address) bool = (exists j :: 0 <= j && j < len(skip) && skip[j] == x)
+
+//@ # the visitor of ClosestPeer
+//@ func (*Kad).ClosestPeer$1
+//@   property C23
+//@   requires elig(curKad, peer, curReach) && !isZeroA(peer)
+//@   ensures never-stops: result0 == false && result1 == false && result2 == nil
+//@   iterinv candidate-is-the-start-value-or-a-visited-unskipped-peer needs -: closest == pre(closest) || (elig(curKad, closest, curReach) && !skippedIn(skipPeers, closest))
+//@   iterinv target-unchanged needs -: addr == pre(addr)
+//@   iterinv candidate-only-moves-closer needs target-unchanged: !isZeroA(pre(closest)) ==> !isZeroA(closest) && xdist(addr, closest) <= xdist(addr, pre(closest))
+//@   iterpost no-visited-unskipped-peer-is-closer: skippedIn(skipPeers, peer) || (!isZeroA(closest) && xdist(addr, closest) <= xdist(addr, peer))
+//@   loop 1 invariant 0 - 1 <= rangeindex && rangeindex < len(skipPeers)
+//@   loop 1 invariant forall j :: 0 <= j && j <= rangeindex ==> skipPeers[j] != peer
+
+//@ func (*Kad).ClosestPeer
+//@   property C23
+//@   requires k != nil && kadOK(k) && curKad == k && curReach == filter.Reachable
+//@   requires isZeroA(boson.ZeroAddress) && !isZeroA(k.base)
+//@   requires forall x boson.Address :: conn(k, x) ==> !isZeroA(x)
+//@   requires !conn(k, k.base)
+//@   ensures returned-peer-is-eligible-and-not-skipped: result1 == nil ==> elig(k, result0, filter.Reachable) && !skippedIn(skipPeers, result0) && result0 != k.base
+//@   ensures no-eligible-unskipped-peer-is-closer: result1 == nil ==> forall v boson.Address :: elig(k, v, filter.Reachable) && !skippedIn(skipPeers, v) ==> xdist(addr, result0) <= xdist(addr, v)
+//@   ensures self-not-strictly-closer-when-included: result1 == nil && includeSelf && int(k.reachability) == 1 ==> xdist(addr, result0) <= xdist(addr, k.base)
+//@   ensures want-self-only-if-self-is-closest: result1 == topology.ErrWantSelf ==> includeSelf && forall v boson.Address :: elig(k, v, filter.Reachable) && !skippedIn(skipPeers, v) ==> xdist(addr, k.base) <= xdist(addr, v)
+//@   ensures not-found-only-without-candidates: result1 == topology.ErrNotFound ==> forall v boson.Address :: !(elig(k, v, filter.Reachable) && !skippedIn(skipPeers, v))
+
+//@ func (*Kad).ClosestPeers
+//@   property C23
+//@   requires k != nil && kadOK(k) && curKad == k && curReach == filter.Reachable
+//@   requires isZeroA(boson.ZeroAddress) && !isZeroA(k.base) && !conn(k, k.base)
+//@   requires forall x boson.Address :: conn(k, x) ==> !isZeroA(x)
+//@   ensures results-pairwise-distinct: forall i, j :: 0 <= i && i < j && j < len(result0) ==> result0[i] != result0[j]
+//@   ensures results-eligible: forall i :: 0 <= i && i < len(result0) ==> elig(k, result0[i], filter.Reachable)
+//@   ensures at-most-limit: len(result0) <= max(limit, 0)
+//@   loop 1 invariant 0 <= i && len(out) <= i && (i <= limit || limit < 0 && i == 0)
+//@   loop 1 invariant forall a :: 0 <= a && a < len(out) ==> skippedIn(skipPeers, out[a]) && elig(k, out[a], filter.Reachable)
+//@   loop 1 invariant forall a, b :: 0 <= a && a < b && b < len(out) ==> out[a] != out[b]
+//@   loop 1 invariant ref(out) != ref(skipPeers)
